@@ -131,6 +131,18 @@ def replay(prop, path):
                 return 1
             print("not reproduced: %s" % data.get("signature"))
             return 0
+    if prop == "C07" and rp.get("kind") in ("message", "field", "header", "json"):
+        from common import HARNESS as HARNESS_BIN
+        import subprocess
+        r = subprocess.run([HARNESS_BIN, "total", "--one", path], capture_output=True, text=True)
+        print(r.stdout)
+        if r.returncode == 1:
+            print("VIOLATION property=%s replay=%s  (%s)" % (prop, path, data.get("signature")))
+            return 1
+        if r.returncode == 0:
+            print("not reproduced: %s" % data.get("signature"))
+            return 0
+        raise ToolError("harness failed: %s" % r.stderr[-400:])
     raise ToolError("no replay procedure for %s with this file" % prop)
 
 
@@ -723,3 +735,70 @@ def check_c15(tier, t0):
 
 
 CHECKS["C15"] = check_c15
+
+
+# ------------------------------------------------------------------------------------------------
+# C07  totality
+# ------------------------------------------------------------------------------------------------
+def check_c07(tier, t0):
+    from common import workdir
+    wd = workdir("C07-%s" % tier)
+    walks, nw, mcw = gen_walks(wd, "quick")
+    cases, n, mcf, cfg = run_fieldformats(wd, "quick")
+    traces = os.path.join(wd, "traces.ndjson")
+    out = os.path.join(wd, "out.json")
+    args = ["total", "--walks", walks, "--fields", cases, "--traces", traces, "--out", out]
+    if tier == "thorough":
+        args.append("--thorough")
+    run_harness(args, timeout=5400)
+    s = json.load(open(out))
+    tv = msglevel.validate_traces(wd, traces, cfg="Session.cfg", module="Session.tla")
+    flagged = {r["id"]: r["dev"] for r in tv["results"]}
+    begins = {}
+    if flagged:
+        with open(traces) as f:
+            for line in f:
+                if line.startswith('{"e":"begin"') or '"e":"begin"' in line[:40]:
+                    d = json.loads(line)
+                    if d["id"] in flagged:
+                        begins[d["id"]] = d
+    vio, seen = [], set()
+    for rid, devs in sorted(flagged.items()):
+        b = begins.get(rid, {})
+        for d in devs:
+            parts = d.split(":")
+            res, op, where = parts[0], (parts[1] if len(parts) > 1 else ""), ":".join(parts[2:])
+            sig = "C07|%s|%s|%s" % (res, op, where)
+            if sig in seen:
+                continue          # first (smallest-id) session per signature is the replay
+            seen.add(sig)
+            vio.append({"sig": sig, "replay": {"kind": b.get("kind"), "input": b.get("input"), "meta": b.get("meta"), "deviation": d}})
+    log("[C07] %d adversarial sessions, %d calls, %d trace lines explained by Session.tla, %d sessions with a non-total answer; "
+        "worst time exponent %.2f" % (s["inputs"], s["calls"], tv["lines"], len(flagged), s["worst_exponent"]))
+    os.remove(traces)
+    cov = {
+        "states": tv["states"] + mcw["distinct"] + mcf["distinct"], "transitions": tv["generated"] + mcw["generated"] + mcf["generated"],
+        "traces_validated_against_impl": s["inputs"], "trace_events_explained": tv["lines"],
+        "evaluations": s["calls"], "distinct_nontrivial": s["inputs"],
+        "rule": "inputs derived from the models, not random: (field level) every content of the FieldFormats shape space; per field type the "
+                "typical content with a multi-byte / NUL character inserted or substituted at every character position, k ASCII characters "
+                "replaced by one k-byte character at every position (byte length preserved), digits of other scripts, every truncation, "
+                "empty / 10 kB / 200 blank lines; every option enum with each letter and heuristically; (headers) blocks 1 2 3 5 truncated "
+                "at every length and poisoned at every offset; (messages) layout walks of all 30 types poisoned inside every field, in tags "
+                "and headers, truncated at every line and at each of the first 60 characters; (JSON) every string / number leaf of a valid "
+                "message's JSON made hostile, then from_value -> to_mt_message -> validate -> to_value -> re-parse -> publish_mt; (legacy API) "
+                "parse_block4_fields, extract_field_content, extract_block4, tag normalisation; every error is rendered by Display, "
+                "debug_report, brief_message, format_with_context; (time) 11 input families x 8 entry points on a size ladder 16 kB.."
+                + ("1 MB" if tier == "thorough" else "256 kB") + ", log-log slope of the best-of-3 times <= 2.6. Every call is one trace event "
+                "validated by TLC against Session.tla, whose result alphabet per operation is {ok, err} or {ok}",
+        "samples": s["samples"] or [{}],
+        "scaling": s["scaling"], "worst_exponent": s["worst_exponent"],
+        "exhaustive": False,
+    }
+    assumptions = ["totality over all strings is not decidable by enumeration: this check explores a model-derived adversarial family (level: exploration)",
+                   "a call counts as hanging when it needs more than 2 s on inputs of at most 10 kB, or when the fitted time exponent exceeds 2.6",
+                   "timing is measured on a shared machine: best of 3 runs per size"]
+    return report("C07", tier, "exploration", vio, cov, assumptions, t0)
+
+
+CHECKS["C07"] = check_c07
